@@ -432,6 +432,55 @@ theorem mkArray_ok (ops : NumOps) (tok : String) (dataShape : List Nat) (units :
     exact ⟨h1, h2.trans (hunits i hi), h3.trans (hnames i hi)⟩
 
 
+/-! ### labels address slices -/
+
+theorem filter_zipIdx_nodup (x : String) : ∀ (l : List String) (k i : Nat) (h : i < l.length), l.Nodup → l[i] = x →
+    (l.zipIdx k).filter (fun p => p.1 == x) = [(x, k + i)]
+  | [], _, _, h, _, _ => by simp at h
+  | y :: ys, k, 0, _, hnd, hx => by
+    simp only [List.getElem_cons_zero] at hx
+    subst hx
+    simp only [List.zipIdx_cons, List.filter_cons, beq_self_eq_true, if_true, Nat.add_zero]
+    congr 1
+    rw [List.filter_eq_nil_iff]
+    intro p hp
+    have hy : y ∉ ys := (List.nodup_cons.mp hnd).1
+    have : p.1 ∈ ys := by
+      have h3 := (List.mem_zipIdx hp).2.2
+      rw [h3]
+      exact List.getElem_mem _
+    intro e
+    simp only [beq_iff_eq] at e
+    exact hy (e ▸ this)
+  | y :: ys, k, i + 1, h, hnd, hx => by
+    simp only [List.getElem_cons_succ] at hx
+    have hy : y ∉ ys := (List.nodup_cons.mp hnd).1
+    have hne : (y == x) = false := by
+      apply beq_false_of_ne
+      intro e
+      exact hy (e ▸ hx ▸ List.getElem_mem _)
+    simp only [List.zipIdx_cons, List.filter_cons, hne, Bool.false_eq_true, if_false]
+    rw [filter_zipIdx_nodup x ys (k + 1) i (by simpa using h) (List.nodup_cons.mp hnd).2 hx]
+    congr 2
+    omega
+
+/-- C14, labels: with distinct labels, the i-th label addresses slice i -/
+theorem C14_label_index (labels : List String) (i : Nat) (h : i < labels.length) (hnd : labels.Nodup) :
+    labelIndex labels labels[i] = some i := by
+  simp only [labelIndex, List.zipIdx]
+  rw [filter_zipIdx_nodup labels[i] labels 0 i h hnd rfl]
+  simp
+
+/-- … and a label list LONGER than the stack is deep is cut to the depth: the surplus labels play no part, whatever they are
+    (e.g. repetitions of kept labels) -/
+theorem C14_labels_truncated (tok : String) (dataShape : List Nat) (units : String) (ls : List String)
+    (h : dataShape.headD 0 ≤ ls.length) :
+    (initArray tok dataShape units (.given ls)).labels = ls.take (dataShape.headD 0) := by
+  simp only [initArray, labIsStack, if_true, padTo]
+  split
+  · omega
+  · rfl
+
 /-! ### `get_slice` / `ar[label]` -/
 
 theorem unpackDim_full (ops : NumOps) (xs : List Num) (n : Nat) (h : xs.length = n) : unpackDim ops (.vec xs) n = .ok xs := by
